@@ -98,6 +98,10 @@ class Registry:
         first = None
         for k in seen:
             for c in self.contracts.values():
+                # a block / statement / relational / lemma contract speaks about a part of the
+                # body or about two runs: it is never the contract of a *call*
+                if c.block or c.stmt or c.custom is not None or getattr(c, 'relate', None):
+                    continue
                 if c.cls == k and c.name == name:
                     if args is None or _args_fit(c, args, kwargs):
                         return c
@@ -126,7 +130,8 @@ class Registry:
                 return c
         # a relational (two-run) contract is a theorem about the function, not its call contract
         for c in self.contracts.values():
-            if c.cls is None and c.name == short and not getattr(c, 'relate', None):
+            if c.cls is None and c.name == short and not getattr(c, 'relate', None) \
+                    and not c.block and not c.stmt and c.custom is None:
                 return c
         return None
 
